@@ -851,7 +851,7 @@ def run_check(chk):
     if tier != chk.tier:
         chk.cov["search"] = "theorem file or build broke: case set enlarged to the thorough scope"
     cases, scope = gen_cases(tier, chk.rng)
-    mgal, midx = [], []
+    mgal, midx, nsig = [], [], {}
     gal, idx, H, nt = [], [], {"mode": {}, "subject": {}, "reentrant": 0, "cold": 0, "falsy_values": 0,
                                "reconnect": 0, "late_subscriber_after_end": 0}, set()
     for ci, (cfg, h) in enumerate(cases):
@@ -870,6 +870,10 @@ def run_check(chk):
         if nontrivial(rec):
             nt.add(repr((cfg_json(cfg), subj.hist_key(h))))
         for sig, detail in oracle(cfg, h, rec):
+            nsig[sig] = nsig.get(sig, 0) + 1
+            if nsig[sig] > 3:               # a defect hits thousands of cases: shrink the first few only
+                continue
+
             def still(hh, _sig=sig):
                 return any(s == _sig for s, _ in oracle(cfg, hh, run_case(cfg, hh)))
             hm = subj.shrink(h, still)
